@@ -1173,7 +1173,7 @@ pub fn run_public(prop: &str, ctx: &Ctx) -> i32 {
         }
     }
     // small exhaustive domain for M<=2: every (dummy pattern) x (conflict in each field at each real pair)
-    let per = ctx.tier.pick(500usize, 15000);
+    let per = ctx.tier.pick(500usize, 150000);
     let injs = [PubInject::None, PubInject::Block, PubInject::Asset, PubInject::Fee];
     for w in ws.iter() {
         let cnt = if w.m * w.n >= 16 { per / 8 + 4 } else { per };
